@@ -9,7 +9,7 @@
      streamflow.data.manager.DefaultDataManager.get_source_location
      streamflow.data.manager.DefaultDataManager.register_path
      streamflow.data.manager.DefaultDataManager.register_relation
-     streamflow.data.remotepath.get_inner_path            (non-recursive form, mounts tried in the given order)
+     streamflow.data.remotepath.get_inner_path            (non-recursive form, incl. sorted(mounts, reverse=True))
      streamflow.core.data.DataLocation                    (location key, path, mutable data_type)
 
    Representation.
@@ -206,7 +206,26 @@ Fixpoint first_mount (ms : list (path * path)) (p : path) : option path :=
   | (m, tgt) :: ms' =>
       match strip_prefix m p with Some rest => Some (tgt ++ rest) | None => first_mount ms' p end
   end.
-(* get_inner_path: mounts are given in the order the code tries them (sorted by mount string, reversed) *)
+Definition slash : Ascii.ascii := Ascii.Ascii true true true true false true false false.   (* "/" = 47 *)
+(* the mount-point string of a component list: "/" for the root, else "/c1/c2/..." *)
+Fixpoint render_comps (p : path) : string :=
+  match p with
+  | [] => EmptyString
+  | c :: r => String slash (String.append c (render_comps r))
+  end.
+Definition render_path (p : path) : string := match p with [] => "/" | _ => render_comps p end.
+(* sorted(location.mounts.keys(), reverse=True): Python orders the mount-point STRINGS (code points; bytes on the
+   ASCII domain of the correspondence), descending.  Insertion sort: a mount goes before the first one whose string
+   is smaller.  (dict keys are unique, so stability does not matter.) *)
+Definition mount_lt (a b : path * path) : bool :=
+  match String.compare (render_path (fst a)) (render_path (fst b)) with Lt => true | _ => false end.
+Fixpoint ins_desc (m : path * path) (l : list (path * path)) : list (path * path) :=
+  match l with
+  | [] => [m]
+  | x :: l' => if mount_lt x m then m :: x :: l' else x :: ins_desc m l'
+  end.
+Definition sort_mounts (ms : list (path * path)) : list (path * path) := fold_right ins_desc [] ms.
+(* get_inner_path (non-recursive form): the mounts are tried in reverse-sorted order of their strings *)
 Definition inner_path (tab : list locinfo) (li : nat) (p : path) : option (nat * path) :=
   match nth_error tab li with
   | None => None
@@ -214,7 +233,7 @@ Definition inner_path (tab : list locinfo) (li : nat) (p : path) : option (nat *
       if llocal l then None
       else match lwraps l with
            | None => None
-           | Some w => match first_mount (lmounts l) p with Some q => Some (w, q) | None => None end
+           | Some w => match first_mount (sort_mounts (lmounts l)) p with Some q => Some (w, q) | None => None end
            end
   end.
 Definition key_of (tab : list locinfo) (li : nat) : lockey :=
